@@ -152,7 +152,8 @@ namespace nmtools::index
             if (start >= 0 && stop > 0)
                 s = start;
             else if (start < 0 && stop > 0)
-                s = stop + start;
+                // negative start counts from the end of the axis, not from stop
+                s = si + start;
             else if (start >= 0 && stop < 0)
                 s = start;
             else /* if (start < 0 && stop < 0) */
@@ -194,9 +195,10 @@ namespace nmtools::index
                 _step  = step;
                 // return {start, step};
             } else if (start < 0 && stop > 0 && step > 0) {
-                _start = stop + start;
+                // negative start counts from the end of the axis, not from stop
+                _start = si + start;
                 _step  = step;
-                // return {stop+start, step};
+                // return {si+start, step};
             } else if (start >= 0 && stop < 0 && step > 0) {
                 _start = start;
                 _step  = step;
